@@ -221,30 +221,62 @@ func Message(c *gen.Case) (*fix.Message, error) {
 	if err != nil {
 		return nil, err
 	}
-	if err := Fill(m.Header().Items(), c.Tpl.Header, c.Header); err != nil {
+	if err := fill(compC{m.Header()}, c.Tpl.Header, c.Header); err != nil {
 		return nil, err
 	}
-	if err := Fill(m.Body(), c.Tpl.Body, c.Body); err != nil {
+	if err := fill(bodyC{m}, c.Tpl.Body, c.Body); err != nil {
 		return nil, err
 	}
-	if err := Fill(m.Trailer().Items(), c.Tpl.Trailer, c.Trailer); err != nil {
+	if err := fill(compC{m.Trailer()}, c.Tpl.Trailer, c.Trailer); err != nil {
 		return nil, err
 	}
 	return m, nil
 }
 
+// container is what an application populates: a component (header, trailer,
+// nested component, an entry held as a component the way generated code does),
+// the message body, or a bare entry slice.
+type container interface {
+	items() fix.Items
+	set(i int, it fix.Item)
+}
+
+type compC struct{ c *fix.Component }
+
+func (c compC) items() fix.Items       { return c.c.Items() }
+func (c compC) set(i int, it fix.Item) { c.c.Set(i, it) }
+
+type bodyC struct{ m *fix.Message }
+
+func (c bodyC) items() fix.Items       { return c.m.Body() }
+func (c bodyC) set(i int, it fix.Item) { c.m.Set(i, it) }
+
+type itemsC struct{ it fix.Items }
+
+func (c itemsC) items() fix.Items       { return c.it }
+func (c itemsC) set(i int, it fix.Item) { c.it[i] = it }
+
 // Fill populates library items in lock-step with the model.
 func Fill(items fix.Items, ns []*gen.Node, ps []*gen.Pop) error {
-	if len(items) != len(ns) {
-		return fmt.Errorf("structure mismatch: %d items vs %d nodes", len(items), len(ns))
+	return fill(itemsC{items}, ns, ps)
+}
+
+// fill populates a container in lock-step with the model, assembling each
+// component and group the way its Pop.Build says (all of them ways generated
+// code and its users build messages: in place, fresh object put into its slot
+// with Set before or after it is populated, entries added before or after
+// they are populated, entries made from the group's own template).
+func fill(c container, ns []*gen.Node, ps []*gen.Pop) error {
+	if len(c.items()) != len(ns) {
+		return fmt.Errorf("structure mismatch: %d items vs %d nodes", len(c.items()), len(ns))
 	}
 	for i, n := range ns {
 		p := ps[i]
 		switch n.K {
 		case gen.KField:
-			kv, ok := items[i].(*fix.KeyValue)
+			kv, ok := c.items()[i].(*fix.KeyValue)
 			if !ok {
-				return fmt.Errorf("item %d is %T, not a field", i, items[i])
+				return fmt.Errorf("item %d is %T, not a field", i, c.items()[i])
 			}
 			if p.V != nil {
 				if err := Install(kv, n.T, p.V); err != nil {
@@ -252,24 +284,64 @@ func Fill(items fix.Items, ns []*gen.Node, ps []*gen.Pop) error {
 				}
 			}
 		case gen.KComp:
-			comp, ok := items[i].(*fix.Component)
+			comp, ok := c.items()[i].(*fix.Component)
 			if !ok {
-				return fmt.Errorf("item %d is %T, not a component", i, items[i])
+				return fmt.Errorf("item %d is %T, not a component", i, c.items()[i])
 			}
-			if err := Fill(comp.Items(), n.Items, p.Items); err != nil {
-				return err
-			}
-		case gen.KGroup:
-			g, ok := items[i].(*fix.Group)
-			if !ok {
-				return fmt.Errorf("item %d is %T, not a group", i, items[i])
-			}
-			for _, e := range p.Entries {
-				entry := NewItems(n.Items)
-				if err := Fill(entry, n.Items, e); err != nil {
+			switch p.Build {
+			case 1:
+				comp = fix.NewComponent(NewItems(n.Items)...)
+				if err := fill(compC{comp}, n.Items, p.Items); err != nil {
 					return err
 				}
-				g.AddEntry(entry)
+				c.set(i, comp)
+			case 2:
+				comp = fix.NewComponent(NewItems(n.Items)...)
+				c.set(i, comp)
+				if err := fill(compC{comp}, n.Items, p.Items); err != nil {
+					return err
+				}
+			default:
+				if err := fill(compC{comp}, n.Items, p.Items); err != nil {
+					return err
+				}
+			}
+		case gen.KGroup:
+			g, ok := c.items()[i].(*fix.Group)
+			if !ok {
+				return fmt.Errorf("item %d is %T, not a group", i, c.items()[i])
+			}
+			fresh := p.Build&4 != 0
+			if fresh {
+				g = fix.NewGroup(n.Tag, NewItems(n.Items)...)
+				if p.Build&3 == 1 {
+					c.set(i, g)
+				}
+			}
+			for _, e := range p.Entries {
+				switch p.Build & 3 {
+				case 1:
+					ec := fix.NewComponent(NewItems(n.Items)...)
+					g.AddEntry(ec.Items())
+					if err := fill(compC{ec}, n.Items, e); err != nil {
+						return err
+					}
+				case 2:
+					ec := fix.NewComponent(g.AsTemplate()...)
+					if err := fill(compC{ec}, n.Items, e); err != nil {
+						return err
+					}
+					g.AddEntry(ec.Items())
+				default:
+					entry := NewItems(n.Items)
+					if err := fill(itemsC{entry}, n.Items, e); err != nil {
+						return err
+					}
+					g.AddEntry(entry)
+				}
+			}
+			if fresh && p.Build&3 != 1 {
+				c.set(i, g)
 			}
 		}
 	}
